@@ -93,7 +93,7 @@ def _clean_member_fingerprints(target_dir):
             shutil.rmtree(os.path.join(fp, d), ignore_errors=True)
 
 
-def _prune(keep=400):
+def _prune(keep=1000):      # the thorough replay set (seeds + mutants + refactorings ≈ 600 trees) must fit, or a full pass thrashes
     base = os.path.join(CACHE, "facts")
     if not os.path.isdir(base):
         return
